@@ -2,7 +2,7 @@
    (Welch & Bishop eqn 1.11) whenever the 2x2 innovation covariance S is non-singular, and the
    documented initial tuple of a new feature in the velocity model. *)
 From Coq Require Import ZArith List Bool Lia Arith QArith Qcanon Field.
-From Centro Require Import Gen.ConstsC09 Model.Kalman Spec.Kalman Proofs.KalmanAlg.
+From Centro Require Import Gen.ConstsC09 Model.Kalman Spec.Kalman Proofs.KalmanArith Proofs.KalmanAlg.
 Import ListNotations.
 Open Scope Qc_scope.
 
@@ -14,7 +14,7 @@ Proof.
   rewrite <- (map_id M) at 2. apply map_ext_in. intros row Hin.
   rewrite Forall_forall in HM. specialize (HM row Hin).
   destruct row as [|x [|y [|z row]]]; try discriminate.
-  cbv [map map2 combine col ncols hd length seq nth qsum fold_left fst snd].
+  cbv [map map2 combine col ncols hd length seq nth qsum fold_left fst snd]. qnorm.
   f_equal; [field; exact Hd|]. f_equal. field; exact Hd.
 Qed.
 
@@ -49,6 +49,6 @@ Proof.
   - assert (E : int_mat velocity_om = [[1; 0; 0; 0]; [0; 1; 0; 0]]).
     { unfold int_mat, velocity_om. cbn [map]. repeat (f_equal; try (apply Qc_is_canon; reflexivity)). }
     rewrite E.
-    cbv [mvec mmul mtrans colm uncol map map2 combine col ncols hd length seq nth qsum fold_left fst snd].
+    cbv [mvec mmul mtrans colm uncol map map2 combine col ncols hd length seq nth qsum fold_left fst snd]. qnorm.
     repeat (f_equal; try ring).
 Qed.
